@@ -149,8 +149,27 @@ def minimise_crash(src, case, fp, limit=40):
 
 # ------------------------------------------------------------------ input generation
 
-def gen_inputs(run):
+def read_names(run, src):
+    """attribute / style-property keys the parser sources look up BY NAME, scanned from the snapshot with ast on every run (fail-closed: a
+    scan that fails is a failed obligation, the search then goes on with the standard attribute names only)"""
+    from vt.gen import c01_attrnames
+    try:
+        names = c01_attrnames.scan(src)
+    except Exception as e:  # noqa: BLE001
+        run.obligation("attribute-names-read-by-name-scanned", False, "%s: %s" % (type(e).__name__, str(e)[:300]))
+        names = {}
+    else:
+        run.obligation("attribute-names-read-by-name-scanned", True, "%d names looked up by name in mwlib/parser, extensions, rendering: %s"
+                       % (len(names), " ".join(names)))
+    G.READ_NAMES[:] = list(names)
+    run.coverage["attribute_names_read_by_name"] = {k: v[:3] for k, v in names.items()}
+    return names
+
+
+def gen_inputs(run, src=None):
     rng = run.rng
+    if src is not None:
+        read_names(run, src)
     quick = run.tier == "quick"
     maxlen = 400 if quick else 5000
     cases = []
@@ -169,6 +188,10 @@ def gen_inputs(run):
     # attribute values over the number-like corner of Unicode, in every construct that takes attributes (exhaustive: char x construct)
     for i, raw in enumerate(G.attr_family()):
         add(raw, G.LANGS[i % 12], G.TEMPLATE_UNIVERSES[2] if (i % 3 == 0 or "{{" in raw) else None, "attrnum")
+    # every attribute name the sources read by name (+ the standard ones) x int-like / numeric-looking / mixed values on every element kind
+    # that carries attributes, 4 attribute forms x 7 position classes rotating (thorough: all of them); exempt from the 400-char cap
+    for i, (raw, db, _desc) in enumerate(G.readattr_family(run.tier)):
+        add(raw, G.LANGS[i % 12], db, "readattrs")
     # one line with 10..60 apostrophe runs of lengths 2..6 (plain and with the runs supplied by a template)
     for i, raw in enumerate(G.quote_family()):
         add(raw, G.LANGS[i % 12], None, "quoteruns")
@@ -219,7 +242,7 @@ def gen_inputs(run):
 # ------------------------------------------------------------------ the check
 
 def search(run, src):
-    cases, maxlen = gen_inputs(run)
+    cases, maxlen = gen_inputs(run, src)
     results = run_cases(src, cases)
     by_fp = collections.defaultdict(list)
     dist = collections.Counter()
